@@ -1,0 +1,20 @@
+//go:build !verif
+
+package runner
+
+// No-op counterparts of the scheduler trace hooks in verif_trace.go (build tag "verif").
+// They are empty and get inlined away.
+
+func verifGraph(parent action, root action, capacity int) {}
+func verifSeed(a action)                                  {}
+func verifDequeue(a action)                               {}
+func verifSpawn(a action)                                 {}
+func verifAcquired(a action, ok bool)                     {}
+func verifStart(a action)                                 {}
+func verifEnd(a action)                                   {}
+func verifRelease(a action)                               {}
+func verifDecBegin(a action)                              {}
+func verifDecEnd(a, t action, last bool)                  {}
+func verifEnqueue(a, t action)                            {}
+func verifClose(a action)                                 {}
+func verifExit(root action)                               {}
